@@ -246,7 +246,7 @@ def finish(mod, prop, tier, seed, agg, died, wall):
                                clauses=v["clauses"], sample=v["sample"]), f, indent=1)
             print("VIOLATION property={} replay={}".format(prop, path))
             for c in v["clauses"][:2]:
-                print("  clause={} detail={}".format(c["clause"], json.dumps(c["detail"])[:1200]))
+                print("  clause={} detail={}".format(c["clause"], json.dumps(c["detail"])[-700:]))
         print("{}: {} violating case(s) out of {} ({} s)".format(
             prop, agg["n_violating_cases"] + len(unlisted), agg["evaluations"], round(wall, 1)))
         return 1
